@@ -640,6 +640,16 @@ class Interp:
                 if f.attr == 'isEnabledFor':
                     return False
                 return None
+        if (isinstance(f, ast.Attribute) and isinstance(f.value, ast.Call) and isinstance(f.value.func, ast.Name) and f.value.func.id == 'super'
+                and not f.value.args and not self.in_spec):
+            # super().m(...): the parent's method through its (assumed or verified) contract, supplied by the world
+            hook = getattr(self.world, 'super_call', None)
+            if hook is None:
+                raise Undecided(f'super().{f.attr}(...) without a contract of the parent class')
+            me = scope.lookup('self') if scope.has('self') else None
+            sargs = [self.eval(a, scope) for a in node.args]
+            skw = {k.arg: self.eval(k.value, scope) for k in node.keywords}
+            return hook(self, me, f.attr, sargs, skw)
         if isinstance(f, ast.Attribute) and f.attr in MUTATORS:
             recv = self.eval(f.value, scope)
             if isinstance(recv, SV) and recv.typ.kind in ('Seq', 'Set', 'Map'):
@@ -921,6 +931,10 @@ class Interp:
                 return getattr(model, 'p_' + name)(self, recv)
             if name == '__class__':
                 return SClass(recv.cls)
+            prop = self._real_property(recv.cls, name)
+            if prop is not None:
+                # a @property of the receiver's own class, defined in the file under verification: its real body is inlined
+                return self.inline(SFunc(prop, Scope(None, {}), name), [recv], {})
             return SBound(recv, name)
         if isinstance(recv, SClass):
             v = self.world.class_attr(self, recv, name)
@@ -944,6 +958,19 @@ class Interp:
         if a is not NotImplemented:
             return a
         return SBound(recv, name)
+
+    def _real_property(self, cls, name):
+        c = getattr(self.world, 'current', None)
+        if c is None or not getattr(self.world, 'inline_properties', False):
+            return None
+        from . import extract
+        try:
+            fn = extract.find(c.file, f'{cls}.{name}')
+        except extract.Missing:
+            return None
+        if isinstance(fn, ast.FunctionDef) and any(isinstance(d, ast.Name) and d.id == 'property' for d in fn.decorator_list):
+            return fn
+        return None
 
     def setattr(self, recv, name, value):
         if isinstance(recv, SObj):
